@@ -291,8 +291,20 @@ Inductive interleave {A} : list (list A) -> list A -> Prop :=
 Definition smap_eqb (a b : smap) : bool := val_sim (VMap a) (VMap b).
 
 (* fields compared between the model's reply and the decoded observed bytes. Texts produced by the framework
-   itself (timeouts, dispatcher refusals) are not compared, only the code; a TUP payload is an unordered map, its
-   length is compared (the Go-side monitor decodes it). *)
+   itself (timeouts, dispatcher refusals) are not compared, only the code; a TUP payload is compared as a finite map. *)
+(* a TUP payload is a map<string, vector<byte>> at tag 0 (tup.UniAttribute.Encode iterates a Go map: any order):
+   decoded with the generated-codec model and compared as a finite map *)
+Definition tup_payload_val (buf : list N) : option val :=
+  match dec_var (4 * length buf + 64) env0 0 true (TMap TStr (TVec TI8)) (VMap []) buf with
+  | DOk v [] => Some v
+  | _ => None
+  end.
+Definition tup_payload_eqb (a b : list N) : bool :=
+  match tup_payload_val a, tup_payload_val b with
+  | Some va, Some vb => val_sim va vb && (length a =? length b)%nat
+  | _, _ => false
+  end.
+
 Definition fields_match (o : origin) (disp_err tup_payload : bool) (m : reply) (obs : bool * reply) : bool :=
   let '(shape, p) := obs in
   Bool.eqb shape (is_tup m) &&
@@ -300,7 +312,8 @@ Definition fields_match (o : origin) (disp_err tup_payload : bool) (m : reply) (
   (if is_tup m then true
    else (p_ret p =? p_ret m)%Z &&
         (match o with FromHandler => disp_err || bytes_eqb (p_desc p) (p_desc m) | _ => true end)) &&
-  (if is_tup m && tup_payload then (length (p_buf p) =? length (p_buf m))%nat else bytes_eqb (p_buf p) (p_buf m)) &&
+  (if is_tup m && tup_payload && (match o with FromHandler => true | _ => false end)
+   then tup_payload_eqb (p_buf p) (p_buf m) else bytes_eqb (p_buf p) (p_buf m)) &&
   smap_eqb (p_status p) (p_status m) && smap_eqb (p_ctx p) (p_ctx m).
 
 (* the model's reply with the members that are not compared (framework texts, the unordered TUP payload) taken
